@@ -66,7 +66,13 @@ FieldsOf(s) == IF s = "a" THEN {"x", "y"} ELSE {"x"}
 Loggees == IF cfg.sel = "all" THEN {"a", "b"} ELSE {"a"}
 LoggedFields == IF cfg.sel = "all" THEN << <<"a", "x">>, <<"a", "y">>, <<"b", "x">> >> ELSE << <<"a", "x">> >>
 CurVals == [i \in 1..Len(LoggedFields) |-> val[LoggedFields[i][1]][LoggedFields[i][2]]]
-DeckVals(e) == IF cfg.sel = "all" THEN <<e, 1 - e>> ELSE <<e>>
+\* a deck entry is a mapping; entry e in Vals has the fields x = e, y = 1 - e.  Blank stands for the EMPTY mapping: it has
+\* none of the logged fields, and a logged field that an entry lacks is recorded as an empty column (Blank) - the entry
+\* is still an element of the queue and gets its record like any other
+Blank == 0 - 1
+DeckElems == Vals \cup {Blank}
+DeckVals(e) == IF e = Blank THEN (IF cfg.sel = "all" THEN <<Blank, Blank>> ELSE <<Blank>>)
+               ELSE IF cfg.sel = "all" THEN <<e, 1 - e>> ELSE <<e>>
 
 Hdr == [h |-> TRUE, t |-> 0, v |-> <<>>]
 RecAt(t, vs) == [h |-> FALSE, t |-> t, v |-> vs]
@@ -180,7 +186,8 @@ Slot == phase = "pre" /\ SlotWith(FALSE)
 SlotSilent == LogRun /\ OnlyLate /\ SlotWith(TRUE)
 
 Next == \/ \E s \in Shares : \E f \in FieldsOf(s) : \E v \in Vals : Write(s, f, v)
-        \/ \E v \in (IF Serial THEN {0} ELSE Vals) : PushS(v) \/ PushD(v)
+        \/ \E v \in (IF Serial THEN {0} ELSE Vals) : PushS(v)
+        \/ \E v \in (IF Serial THEN {0} ELSE DeckElems) : PushD(v)
         \/ \E c \in {"stop", "start"} : Bid(c)
         \/ Slot
         \/ Tick
